@@ -91,6 +91,22 @@ func (p *c16) Gen(seed uint64, i int, tier string) (any, bool) {
 		sc.Server.Rules = []refsmtpd.Rule{{Verb: "QUIT", Nth: 1, Action: refsmtpd.Action{Code: sim.Pick(r, []int{502, 421, 250}), Text: "not now"}}}
 		return sc, true
 	}
+	if i%23 == 20 {
+		// the smtp package driven directly, debug logging on from the start: Auth is the first
+		// call on the Client (it has to say hello itself), the server refuses the credentials
+		// (or not), and the caller tries again on the same Client with another password
+		sc := &C16Scenario{Script: "direct", Sched: sim.Derive(seed, 16, uint64(i), 1), Direct: "auth-first-retry"}
+		sc.Client = ClientCfg{User: genSecret(r, "U"), Pass: genSecret(r, "P"), AuthType: sim.Pick(r, []string{"PLAIN", "LOGIN", "CRAM-MD5", "SCRAM-SHA-256"}), Logger: sim.Pick(r, []string{"capture", "std", "json"})}
+		sc.Server.Caps = []string{"8BITMIME", authCaps(allMechs...)}
+		sc.Server.Auth = refsmtpd.AuthCfg{User: sc.Client.User, Pass: sc.Client.Pass, Salt: r.Bytes(12), Iter: 4, NonceSuffix: "SrvC16"}
+		if r.Chance(2, 3) {
+			sc.Server.Auth.Pass = genSecret(r, "X") // the first attempt is refused
+		}
+		if r.Chance(1, 2) {
+			sc.Server.Rules = []refsmtpd.Rule{{Verb: "QUIT", Nth: 1, Action: refsmtpd.Action{Code: 502, Text: "not now"}}}
+		}
+		return sc, true
+	}
 	if i%23 == 21 {
 		sc := &C16Scenario{Script: "direct", Sched: sim.Derive(seed, 16, uint64(i), 1), Direct: "late-debug", ToggleAfter: r.Intn(1200)}
 		sc.Client = ClientCfg{User: genSecret(r, "U"), Pass: genSecret(r, "P"), AuthType: sim.Pick(r, []string{"PLAIN", "LOGIN", "CRAM-MD5", "SCRAM-SHA-256"}), Logger: sim.Pick(r, []string{"capture", "std", "json"})}
@@ -163,7 +179,7 @@ func secretForms(pass string) map[string]string {
 
 func (p *c16) Exec(t *testing.T, scAny any) Outcome {
 	sc := scAny.(*C16Scenario)
-	if sc.Direct == "late-debug" {
+	if sc.Direct == "late-debug" || sc.Direct == "auth-first-retry" {
 		return p.execLateDebug(t, sc)
 	}
 	if sc.Direct != "" {
@@ -482,6 +498,7 @@ func (p *c16) execLateDebug(t *testing.T, sc *C16Scenario) Outcome {
 	var authErr error
 	ran := false
 	toggledAt, authFrom, authTo := -1, -1, -1
+	secondPass := ""
 	res := RunSim(t, sc.Sched, sim.Policy{Kind: "random"}, 0, time.Hour, func(k *sim.Kernel) (func(), func()) {
 		env = &NetEnv{K: k, Srv: refsmtpd.New(k, sc.Server, TLSMat)}
 		return func() {
@@ -491,6 +508,35 @@ func (p *c16) execLateDebug(t *testing.T, sc *C16Scenario) Outcome {
 				return
 			}
 			c.SetLogger(logger)
+			mk := func(pass string) smtp.Auth {
+				switch sc.Client.AuthType {
+				case "LOGIN":
+					return smtp.LoginAuth(sc.Client.User, pass, "mx.sim.example", true)
+				case "CRAM-MD5":
+					return smtp.CRAMMD5Auth(sc.Client.User, pass)
+				case "SCRAM-SHA-256":
+					return smtp.ScramSHA256Auth(sc.Client.User, pass)
+				}
+				return smtp.PlainAuth("", sc.Client.User, pass, "mx.sim.example", true)
+			}
+			if sc.Direct == "auth-first-retry" {
+				c.SetDebugLog(true)
+				toggledAt = 0
+				authFrom = k.Steps
+				authErr = c.Auth(mk(sc.Client.Pass)) // no Hello before: Auth says hello itself
+				if authErr != nil {
+					// the caller tries again on the same Client (whatever state the failed
+					// attempt left the connection in) with another password
+					secondPass = sc.Client.Pass + "-2nd" + sc.Client.User[:4]
+					_ = c.Auth(mk(secondPass))
+				}
+				authTo = k.Steps
+				_ = c.Noop()
+				_ = c.Mail("sender-afterauth@origin.example")
+				ran = true
+				_ = c.Close()
+				return
+			}
 			if err := c.Hello("client.sim.example"); err != nil {
 				return
 			}
@@ -499,17 +545,7 @@ func (p *c16) execLateDebug(t *testing.T, sc *C16Scenario) Outcome {
 				toggledAt = k.Steps
 				c.SetDebugLog(true)
 			})
-			var a smtp.Auth
-			switch sc.Client.AuthType {
-			case "LOGIN":
-				a = smtp.LoginAuth(sc.Client.User, sc.Client.Pass, "mx.sim.example", true)
-			case "CRAM-MD5":
-				a = smtp.CRAMMD5Auth(sc.Client.User, sc.Client.Pass)
-			case "SCRAM-SHA-256":
-				a = smtp.ScramSHA256Auth(sc.Client.User, sc.Client.Pass)
-			default:
-				a = smtp.PlainAuth("", sc.Client.User, sc.Client.Pass, "mx.sim.example", true)
-			}
+			a := mk(sc.Client.Pass)
 			authFrom = k.Steps
 			authErr = c.Auth(a)
 			authTo = k.Steps
@@ -542,10 +578,32 @@ func (p *c16) execLateDebug(t *testing.T, sc *C16Scenario) Outcome {
 	case toggledAt >= authFrom:
 		when = "during-auth"
 	}
-	out.stat("probe.debug-switched-on-"+when, 1)
+	mode := "late-debug"
+	if sc.Direct == "auth-first-retry" {
+		mode, when = "auth-first-retry", "before the first call"
+		out.stat("probe.auth-is-the-first-call", 1)
+		if secondPass != "" {
+			out.stat("probe.second-auth-on-the-same-client", 1)
+		}
+	} else {
+		out.stat("probe.debug-switched-on-"+when, 1)
+	}
 	for k, v := range secretForms(sc.Client.Pass) {
 		if strings.Contains(all, v) {
-			out.violate("C16:leak:password:"+k+":late-debug", "debug logging switched on %s (%s, Auth returned %v): the log contains the password (%s form)", when, sc.Client.AuthType, authErr, k)
+			out.violate("C16:leak:password:"+k+":"+mode, "debug logging switched on %s (%s, Auth returned %v): the log contains the password (%s form)", when, sc.Client.AuthType, authErr, k)
+		}
+	}
+	if secondPass != "" {
+		for k, v := range secretForms(secondPass) {
+			if strings.Contains(all, v) {
+				out.violate("C16:leak:password:"+k+":second-attempt", "second Auth on the same smtp.Client after a refused one (%s, first error %v): the log contains the second password (%s form)", sc.Client.AuthType, authErr, k)
+			}
+		}
+		if sc.Client.AuthType == "PLAIN" {
+			triple := base64.StdEncoding.EncodeToString([]byte("\x00" + sc.Client.User + "\x00" + secondPass))
+			if strings.Contains(all, triple) {
+				out.violate("C16:leak:sasl-response:second-attempt", "second Auth on the same smtp.Client after a refused one: the log contains the PLAIN response of the second attempt")
+			}
 		}
 	}
 	// the SASL lines that carry the secret, as the server saw them
@@ -567,7 +625,7 @@ func (p *c16) execLateDebug(t *testing.T, sc *C16Scenario) Outcome {
 			}
 		}
 		if len(line) >= 12 && strings.Contains(all, line) {
-			out.violate("C16:leak:sasl-response:late-debug", "debug logging switched on %s (%s): the log contains the SASL response %q that carries the password", when, sc.Client.AuthType, clipStr(line, 60))
+			out.violate("C16:leak:sasl-response:"+mode, "debug logging switched on %s (%s): the log contains the SASL response %q that carries the password", when, sc.Client.AuthType, clipStr(line, 60))
 		}
 	}
 	sawMail := false
@@ -577,10 +635,10 @@ func (p *c16) execLateDebug(t *testing.T, sc *C16Scenario) Outcome {
 		}
 	}
 	if sawMail && !strings.Contains(all, "MAIL FROM:<sender-afterauth@origin.example>") {
-		out.violate("C16:window-not-closed:late-debug", "debug logging switched on %s (%s, Auth returned %v): the MAIL command that followed the exchange reached the server but is not in the log verbatim (log tail: %q)", when, sc.Client.AuthType, authErr, clipStr(tailStr(all, 300), 300))
+		out.violate("C16:window-not-closed:"+mode, "debug logging switched on %s (%s, Auth returned %v): the MAIL command that followed the exchange reached the server but is not in the log verbatim (log tail: %q)", when, sc.Client.AuthType, authErr, clipStr(tailStr(all, 300), 300))
 	}
-	out.stat("runs.smtp-direct-late-debug", 1)
-	out.Key = fmt.Sprintf("late-debug|%s|%s|%s|%d|%v", when, sc.Client.AuthType, sc.Client.Logger, sc.ToggleAfter, authErr == nil)
+	out.stat("runs.smtp-direct-"+mode, 1)
+	out.Key = fmt.Sprintf("%s|%s|%s|%d|%v|%v", mode+"|"+when, sc.Client.AuthType, sc.Client.Logger, sc.ToggleAfter, authErr == nil, secondPass != "")
 	out.Nontrivial = true
 	return out
 }
